@@ -121,6 +121,25 @@ def _call(args):
         return work(shard)
     except CheckError:
         raise
+    except Exception as e:
+        if from_pcbasic(e) and getattr(work, '__name__', '').startswith('work'):
+            # raised from inside pcbasic (innermost frame) and not handled by the check: the implementation
+            # let a host exception escape at the seam the check drives.  Every check is silent on the unchanged
+            # tree, so this is behaviour the change under test introduced, not a harness crash
+            part = Partial()
+            tb = e.__traceback__
+            fn = '?'
+            while tb is not None:
+                fn = '%s:%s' % (os.path.basename(tb.tb_frame.f_code.co_filename), tb.tb_frame.f_code.co_name)
+                tb = tb.tb_next
+            part.violation('seam/host-exception/%s@%s' % (type(e).__name__, fn),
+                           '%s: %r escaped from pcbasic while the check worked on shard %s' % (
+                               type(e).__name__, e, repr(shard)[:300]),
+                           {'shard': repr(shard)[:1000], 'traceback': traceback.format_exc()[-1500:]})
+            part.n = 1
+            return part
+        raise CheckError('worker crashed on shard %r:\n%s' % (
+            (shard,), traceback.format_exc()))
     except BaseException as e:  # a harness crash is a CHECK-ERROR, never a violation
         raise CheckError('worker crashed on shard %r:\n%s' % (
             (shard,), traceback.format_exc()))
